@@ -46,7 +46,7 @@ P = {
  'C13': ('other', 'AST interpretation of group_where, get_cases, get_identifiers, get_parameters and the joining driver on enumerated token lists; closing-keyword tables vs lexer vocabulary; region rules of the lexer',
          'Where extent on token lists with every closing keyword / in a parenthesis / at the end; one (condition, value) pair per WHEN arm and (None, value) for ELSE on 216 Case trees; list items and sole arguments of every token kind; a typed literal directly behind "(" is grouped; literals, quoted names and comments are single tokens whatever they contain.',
          'Bounded: lists of up to a handful of tokens per shape. Not decided: Comparison.left/right on arbitrary operands beyond the kind tables.', '3 C13'),
- 'C14': ('other', 'leftmost-first extent automata x specification DFA; dictionary/rule table agreement',
+ 'C14': ('other', 'leftmost-first extent automata x specification DFA; dictionary/rule table agreement; abstract interpretation of Lexer.get_tokens on short texts and on words whose upper-casing and caseless folding disagree (R14.S, R14.10)',
          'For every region kind and every body over the full alphabet the first matching rule is of the expected family and ends exactly at the terminator; dictionaries consulted in registration order case-insensitively; every dictionary word reachable as one token.',
          'Contexts limited to the delimiter classes listed; character classes sampled over BMP + astral representatives.', '3 C14'),
  'C15': ('other', 'call-graph recursion containment under the single translating try; who-may-call rule on interpreter limits; non-recursive serialisation; translating guards on recursive accessors; state-leak inventory',
